@@ -301,6 +301,43 @@ theorem update_store_guard_strict :
       (match i.body with | .rejectIf _ :: .nop _ :: .work _ _ :: _ => true | .rejectIf _ :: .work _ _ :: _ => true | _ => false)) = true := by
   decide
 
+/-- obligation: the raw-store-update handler is `guard; no-op; <loop>; <return ok>` -/
+theorem update_store_body_shape :
+    C16Sem.impls.any (fun i => i.msg == "x/gov/types.MsgUpdateStore" &&
+      (match i.body with
+        | [.rejectIf g, .nop _, .work a _, .work b _] => guardCmp C16Sem.helpers g == some .strict && a != b
+        | _ => false)) = true := by decide
+
+/-- the handler model of the semantic layer (`execBody` over the regenerated statements), with the loop statement
+interpreted by the regenerated loop program and the last statement returning success, IS `updateStoreHandler` -/
+theorem update_store_exec_is_handler (i : Impl) (g : BExpr) (n sa sb : String) (a b : Nat)
+    (hb : i.body = [.rejectIf g, .nop n, .work a sa, .work b sb]) (hab : a ≠ b)
+    (hg : guardCmp C16Sem.helpers g = some .strict)
+    (known : List String) (es : List Entry) (env : Env) (auth : Str) (W : World Stores)
+    (hW : ∀ T m id S, W.work T m id S =
+      if id = a then (match runProg known C16Sem.updateStoreProg es S with
+        | (true, S') => .cont S'
+        | (false, S') => .ret .err S')
+      else .ret .ok S)
+    (call : String → String → Stores → Res × Stores) (S : Stores) :
+    execBody C16Sem.helpers env auth W i.recv i.method call i.body S = updateStoreHandler known env.gov auth es S := by
+  rw [hb]
+  unfold updateStoreHandler
+  have hgs := guardCmp_sound C16Sem.helpers env auth g .strict hg
+  by_cases ha : auth = env.gov
+  · have hrel : relK env.cfg .strict env.gov auth = true := by simp [relK, ha]
+    rw [hrel] at hgs
+    rw [if_neg (by simp [ha])]
+    simp only [execBody, hgs, Bool.not_true, Bool.false_eq_true, ↓reduceIte, hW]
+    cases hr : runProg known C16Sem.updateStoreProg es S with
+    | mk ok S' =>
+      cases ok
+      · simp
+      · simp [Ne.symm hab]
+  · have hrel : relK env.cfg .strict env.gov auth = false := by
+      simp only [relK, beq_eq_false_iff_ne, ne_eq]; exact fun h => ha h.symm
+    simp [execBody, hgs, hrel, ha]
+
 /-- it succeeds iff at EVERY position the store space is known and the stated old value equals the value current there,
 i.e. after the writes of all earlier entries (same key twice included) -/
 theorem update_store_ok_iff (known : List String) (es : List Entry) (S : Stores) :
